@@ -79,7 +79,56 @@ def run_property(prop, tier, seed, only=None, jobs=None):
     return mod, results, time.time() - t0
 
 
+_RANK = {"discharged": 0, "undecided": 1, "failed": 2}
+
+
+def merge_results(results):
+    """sub-tasks that split one exploration by its leading choices (Task.preset) report as one task"""
+    out, groups = [], {}
+    for r in results:
+        g = r.get("group")
+        if not g:
+            out.append(r)
+            continue
+        if g not in groups:
+            m = dict(r, task=g, obligations=[dict(o) for o in r["obligations"]], covers=dict(r.get("covers", {})),
+                     functions=list(r.get("functions", [])), solver=dict(r.get("solver", {})))
+            groups[g] = m
+            out.append(m)
+            continue
+        m = groups[g]
+        byname = {o["name"]: o for o in m["obligations"]}
+        for o in r["obligations"]:
+            if o["name"] not in byname:
+                m["obligations"].append(dict(o))
+                continue
+            t = byname[o["name"]]
+            t["paths"] += o["paths"]
+            t["queries"] = t.get("queries", 0) + o.get("queries", 0)
+            t["solver_s"] = round(t.get("solver_s", 0) + o.get("solver_s", 0), 3)
+            t["backends"] = sorted(set(t.get("backends", [])) | set(o.get("backends", [])))
+            if _RANK[o["status"]] > _RANK[t["status"]]:
+                t["status"] = o["status"]
+                for k in ("failure", "undecided_reason"):
+                    if k in o:
+                        t[k] = o[k]
+        for k, v in r.get("covers", {}).items():
+            m["covers"][k] = m["covers"].get(k, False) or v
+        m["paths"] += r.get("paths", 0)
+        for k, v in r.get("solver", {}).items():
+            m["solver"][k] = m["solver"].get(k, 0) + v
+        seen = {(f["file"], f["function"]) for f in m["functions"]}
+        m["functions"] += [f for f in r.get("functions", []) if (f["file"], f["function"]) not in seen]
+        if r["status"] != "ok" and m["status"] == "ok":
+            m["status"], m["error"] = r["status"], r["error"]
+        for k in ("fallback", "enumeration"):
+            if not m.get(k) and r.get(k):
+                m[k] = r[k]
+    return out
+
+
 def decide(prop, mod, results, tier, seed, wall):
+    results = merge_results(results)
     known = load_known()
     open_ids = {f["id"]: f for f in known.get("findings", []) if f.get("property") == prop}
     lines, exit_code = [], 0
